@@ -170,11 +170,14 @@ def run_wsgi(patterns, path, root=""):
     except Exception:  # noqa
         return "construct-error"
     results = []
-    for _ in range(2):        # the same request twice on one router: the answer may not depend on history
+    for turn in range(2):        # the same request twice on one router: the answer may not depend on history
         del log[:]
         status = []
         environ = {"REQUEST_METHOD": "GET", "PATH_INFO": path, "SCRIPT_NAME": root, "QUERY_STRING": "",
                    "SERVER_NAME": "t", "SERVER_PORT": "80", "wsgi.url_scheme": "http"}
+        if turn:
+            # ... nor on what an outer router (or an earlier dispatch of this request) left behind
+            environ["PATH_PARAMS"] = {"outer": "stale"}
         try:
             for _ in router(environ, lambda s, h, e=None: status.append(s)):
                 pass
@@ -224,11 +227,13 @@ def run_asgi(patterns, path, root=""):
         sent.append(msg)
 
     results = []
-    for _ in range(2):
+    for turn in range(2):
         del log[:]
         del sent[:]
         scope = {"type": "http", "method": "GET", "path": path, "root_path": root, "query_string": b"", "headers": [],
                  "scheme": "http", "server": ("t", 80)}
+        if turn:
+            scope["path_params"] = {"outer": "stale"}
         coro = router(scope, receive, send)
         try:
             while True:
